@@ -100,6 +100,43 @@ def moves_nontrivial(r):
     return bool(incheck or promo or castle or ep)
 
 
+# ---------------------------------------------------------------- projections of the canonical lines
+# Each property compares only what it states, so that a defect in another component (e.g. the hash,
+# which is C05's business) is not reported against it.
+KEY_RE = re.compile(r"#[0-9a-f]{16}")
+REC_TAIL_RE = re.compile(r"\|(-?\d+)\|([^|;@ ]*)\|([^|;@ ]*)\|[0-9a-f]{16}")
+
+
+def no_key(line):
+    """drop position keys from a projection line"""
+    return None if line is None else KEY_RE.sub("", line)
+
+
+def rec_no_key_no_hint(line):
+    """drop the zobrist key and the ordering hint from full records"""
+    return None if line is None else REC_TAIL_RE.sub(lambda m: "|_|%s|%s" % (m.group(2), m.group(3)), line)
+
+
+def moves_only(line):
+    """the move set (uci texts, sorted, with multiplicity) and the check flags of a gen projection line"""
+    if line is None or "moves=" not in line:
+        return line
+    head, mv = line.split("moves=", 1)
+    names = sorted(x.split("=")[0] for x in mv.split(",") if x)
+    m = re.search(r"chk=\S+", head)
+    return "gen %s moves=%s" % (m.group(0) if m else "", ",".join(names))
+
+
+def model_moves_only(line):
+    """the move set of a full gen line (harness I / driver M): texts after '@', sorted"""
+    if line is None or "succ=" not in line:
+        return line
+    head, succ = line.split("succ=", 1)
+    names = sorted(x.rsplit("@", 1)[-1] for x in succ.split(";") if x)
+    m = re.search(r"chk=\S+", head)
+    return "gen %s moves=%s" % (m.group(0) if m else "", ",".join(names))
+
+
 # ---------------------------------------------------------------- C14
 @prop("C14", "C14.v", ["C14_mirror", "C14_side", "C14_depends_only_on", "C14_bounded"])
 def run_c14(o, tier, rng, prep):
@@ -154,7 +191,8 @@ def geometry_positions(rng, tier):
     cast = gens.castling_geometry(rng, limit=(700 if tier == "quick" else None))
     ep = gens.ep_geometry(rng, 500 if tier == "quick" else 6000)
     pr = gens.promotion_geometry(rng, 300 if tier == "quick" else 4000)
-    legal = gens.filter_legal(cast + ep + pr)
+    cep = gens.castle_with_ep(rng, 300 if tier == "quick" else 4000)
+    legal = gens.filter_legal(cast + ep + pr + cep)
     return [f for f, _, _ in legal]
 
 
@@ -170,11 +208,10 @@ def run_c01(o, tier, rng, prep):
         pos = pos[:1200]
     for name, fens in (("regression corpus", corpus), ("castling/en-passant/promotion geometry", geo), ("positions of random legal games", pos)):
         res = V.run_cases(gen_cases_from_positions(fens))
-        # C01 is about the move set: compare descriptors (and resulting positions) as sorted multisets
-        mm, sm = V.compare(res)
+        # C01 is about the move set: descriptors as sorted multisets (positions and keys are C02 / C05)
+        mm, sm = V.compare(res, model_filter=model_moves_only, spec_filter=moves_only)
         report(o, name, res, mm, sm, nontrivial=moves_nontrivial)
     o.rule = "legal positions (accepted by the specification's legal_position): regression corpus, enumerated castling geometry (4 castling kinds x 6 enemy kinds incl. king x every square, blockers), en-passant pins/evasions, promotions incl. corner captures, and every prefix of random legal games generated by the specification; non-trivial = castling, promotion or en passant available, or the mover in check"
-    o.assumptions.append("the successor order and order_heuristic are compared too (model = implementation), beyond what C01 needs")
 
 
 @prop("C02", "C02.v", ["C02_ordinary_descriptor", "C02_castle_descriptor", "C02_en_passant_descriptor", "C02_promotion_descriptor"])
@@ -195,7 +232,7 @@ def run_c02(o, tier, rng, prep):
     corpus = [l.rstrip("\n") for l in open(os.path.join(V.VERIF, "corpus", "c02_regress.txt")) if l.strip() and not l.startswith("#")]
     cases = corpus + cases
     res = V.run_cases(cases)
-    mm, sm = V.compare(res)
+    mm, sm = V.compare(res, model_filter=rec_no_key_no_hint, spec_filter=no_key)
     report(o, "successor records along chains of generated successors", res, mm, sm, nontrivial=moves_nontrivial)
     o.rule = "chains of 0-3 generated successors (so inherited fields are exercised) from prefixes of specification-generated games and geometry families; every successor's full record, descriptor and printed bestmove text compared; non-trivial as for C01"
 
@@ -219,7 +256,7 @@ def run_c13(o, tier, rng, prep):
     seen = set()
     cases = [c for c in cases if not (c in seen or seen.add(c))]
     res = V.run_cases(cases)
-    mm, sm = V.compare(res)
+    mm, sm = V.compare(res, model_filter=rec_no_key_no_hint, spec_filter=no_key)
     report(o, "capture-only generation along capture chains", res, mm, sm,
            nontrivial=lambda r: "moves=" in (r.get("S") or "") and not (r.get("S") or "").endswith("moves="))
     o.rule = "capture-only generation at every prefix of capture chains (0-6 plies, followed through capture-only generation as quiescence does) from game positions and en-passant/promotion geometry; non-trivial = at least one legal capture"
@@ -266,6 +303,14 @@ def run_c04(o, tier, rng, prep):
         rng.shuffle(pos)
         pos = pos[:800]
     rcases = ["replay\t%s\t" % f for f in pos]
+    # also from parents that are themselves generated successors (inherited fields: promotion piece, ordering hint)
+    for g in games:
+        n = len(g.moves)
+        for k in range(1, n, 4 if tier == "quick" else 1):
+            j = max(0, k - rng.choice([1, 2]))
+            rcases.append("replay\t%s\t%s" % (g.fens[j], " ".join(g.moves[j:k])))
+    rcases += [c.replace("gen\tA\t", "replay\t") for c in
+               [l.rstrip("\n") for l in open(os.path.join(V.VERIF, "corpus", "c02_regress.txt")) if l.startswith("gen\tA")]]
     res2 = V.run_cases(rcases)
     mm2, sm2 = V.compare(res2)
     report(o, "every generated move, printed and replayed through make_move, reproduces its own successor", res2, mm2, sm2,
@@ -287,6 +332,10 @@ def run_c05(o, tier, rng, prep):
     res = V.run_cases(cases)
     mm, sm = V.compare(res)
     report(o, "key of FEN loader, text replay and generator chains against the from-scratch hash", res, mm, sm, nontrivial=lambda r: True)
+    geo = geometry_positions(rng, tier)
+    res_g = V.run_cases(gen_cases_from_positions(geo) + gen_cases_from_positions(geo[:400] if tier == "quick" else geo, "C"))
+    mm_g, sm_g = V.compare(res_g)
+    report(o, "keys of all generated successors (both modes) on castling/en-passant/promotion geometry, incl. castling with a pending en-passant target", res_g, mm_g, sm_g, nontrivial=moves_nontrivial)
     # the three producers must agree with each other on the key of the same position
     bad = 0
     for i in range(0, len(res) - 2, 3):
@@ -371,7 +420,8 @@ def run_search_repetition(o, tier, rng):
 @prop("C06", "C06.v", ["C06_walk_finds_first_piece", "C06_walk_complete", "C06_walk_terminates", "C06_directions_are_unit"])
 def run_c06(o, tier, rng, prep):
     if tier == "quick":
-        fens = gens.check_geometry(rng, 2500) + gens.random_placements(rng, 500)
+        # exhaustive king square x attacker kind x attacker square (24192 placements), sampled blockers
+        fens = gens.check_geometry(rng, None) + gens.check_geometry(rng, 2500, with_blocker=True) + gens.random_placements(rng, 500)
     else:
         fens = gens.check_geometry(rng, None) + gens.check_geometry(rng, 60000, with_blocker=True) + gens.random_placements(rng, 20000)
     cases = ["chk\t" + f for f in fens]
@@ -382,8 +432,7 @@ def run_c06(o, tier, rng, prep):
     report(o, "is_check for both colours on attacker/blocker geometry and random placements", res, mm, sm,
            nontrivial=lambda r: "1" in (r.get("S") or "").split(" ")[-1])
     o.rule = "placements with one king each, legal or not: king square x attacker kind x attacker square (thorough: exhaustive 64*63*6) with an optional blocker on the segment, plus random placements; both colours judged; non-trivial = at least one side in check"
-    if tier == "thorough":
-        o.extra["exhaustive"] = False
+    o.extra["exhaustive_family"] = "king square x attacker kind x attacker square without blocker: 64*63*6 placements, enumerated completely in both tiers"
 
 
 # ---------------------------------------------------------------- C15
@@ -548,11 +597,17 @@ def mate_score_const():
     return int(re.search(r"Definition MATE_SCORE : Z := (\d+)", txt).group(1))
 
 
-def sweep_expiry(o, tier, rng, want_c18=False):
+def sweep_expiry(o, tier, rng, want_c18=False, hunt=False):
     """C07/C18: for small searches enumerate every expiry index k from 0 up to the end of a reference run"""
     pos = small_positions(rng, 30 if tier == "quick" else 400, max_pieces=7)
     npos = 10 if tier == "quick" else 120
-    kmax = 70 if tier == "quick" else 260
+    kmax = 100 if tier == "quick" else 260
+    if hunt:
+        # the correspondence broke: search harder for a concrete failing expiry point, on the implementation alone
+        pos = pos + [(f, [], f) for f in ["8/8/4k3/8/8/3PK3/8/8 w - - 0 1", gens.START,
+                                           "r3k2r/p1ppqpb1/bn2pnp1/3PN3/1p2P3/2N2Q1p/PPPBBPPP/R3K2R w KQkq - 0 1"]]
+        npos = len(pos)
+        kmax = 420
     pos = pos[:npos]
     legal = root_legal_moves([f for _, _, f in pos])
     mate = mate_score_const()
@@ -563,15 +618,28 @@ def sweep_expiry(o, tier, rng, want_c18=False):
         for k in range(0, kmax + 1):
             cases.append("search\t%s\t%d" % (cmd, k))
             index.append((pi, k))
-    res = V.run_cases(cases)
-    mm, _ = V.compare(res, use_spec=False)
-    o.evaluations += len(res)
-    o.traces += len(res)
-    hist_add(o, "batch:search runs with every expiry index 0..%d" % kmax, len(res))
-    o.oblige("search model = implementation for every expiry index (sends, info lines, consultations, table; %d runs)" % len(res), not mm)
-    for r in mm[:3]:
-        o.violation("corr", "search correspondence broken on %s: %s" % (r["case"][:160], V.first_diff(r.get("I"), r.get("M"))),
-                    {"correspondence": "search", "case": r["case"], "impl": r.get("I"), "model": r.get("M")})
+    if hunt:
+        hout = V.run_sharded([V.HARNESS], cases)
+        res = [dict(case=c) for c in cases]
+        i = -1
+        for l in hout:
+            if l[:1] == "I":
+                i += 1
+            if 0 <= i < len(res) and l[:1] in "IO":
+                res[i][l[:1]] = l[2:]
+        mm = []
+        o.evaluations += len(res)
+        hist_add(o, "batch:hunt for a failing expiry index on the implementation, 0..%d" % kmax, len(res))
+    else:
+        res = V.run_cases(cases)
+        mm, _ = V.compare(res, use_spec=False)
+        o.evaluations += len(res)
+        o.traces += len(res)
+        hist_add(o, "batch:search runs with every expiry index 0..%d" % kmax, len(res))
+        o.oblige("search model = implementation for every expiry index (sends, info lines, consultations, table; %d runs)" % len(res), not mm)
+        for r in mm[:3]:
+            o.violation("corr", "search correspondence broken on %s: %s" % (r["case"][:160], V.first_diff(r.get("I"), r.get("M"))),
+                        {"correspondence": "search", "case": r["case"], "impl": r.get("I"), "model": r.get("M")})
     ok_a = ok_b = ok_c = ok_d = ok_e = ok_18 = True
     prev = {}
     distinct = 0
@@ -625,7 +693,13 @@ def sweep_expiry(o, tier, rng, want_c18=False):
     o.distinct += distinct
     for r in res[:3]:
         o.samples.append(r["case"])
-    return dict(a=ok_a, b=ok_b, c=ok_c, d=ok_d, e=ok_e, c18=ok_18, kmax=kmax, npos=len(pos))
+    out = dict(a=ok_a, b=ok_b, c=ok_c, d=ok_d, e=ok_e, c18=ok_18, kmax=kmax, npos=len(pos))
+    if mm and not hunt and not any(v[0] == "input" for v in o.violations):
+        h = sweep_expiry(o, tier, rng, want_c18=want_c18, hunt=True)
+        for key in "abcde":
+            out[key] = out[key] and h[key]
+        out["c18"] = out["c18"] and h["c18"]
+    return out
 
 
 @prop("C07", "C07.v", ["C07_handed_back_is_root_move", "C07_expired_node_aborts", "C07_clock_monotone", "C07_abort_value_not_a_cp_score", "C07_table_add_remove"])
